@@ -169,6 +169,14 @@ claim("C14", "other",
       "link's own socket, building always stamps the cadence clock, IDLE_TIME*1000 <= period, no return precedes the loop, the timer arm calls the pass.",
       "DESIGN.md 5 C14", "The timed bound (<= 2 periods) rests on tokio's interval and is not decided; finiteness of the Kalman state is a numerical argument that is not decided.")
 
+claim("C20", "other",
+      "await-set extraction (every .await's future constructor), compiler coroutine witnesses (types live across an await) for held-across-await, foreign-callee reachability, guard-liveness dataflow at each access to the entry list, per-iteration path formulas of the fan-out loop, json!-lowering tables for the envelope, closure-predicate extraction for retain, panic reachability",
+      "Decided for every schedule at once, by showing the critical sections atomic instead of enumerating interleavings: publish awaits only the hub's tokio Mutex::lock, none of the five hub bodies keeps a MutexGuard (or a channel-send future) alive across an await (compiler witnesses), no blocking / awaiting "
+      "channel, lock, sleep or runtime-entry operation is reachable from publish, the only channel call is try_send, the entry list is reachable only from those bodies, publish cannot panic; the try_send site is in one loop over the whole locked list, reached exactly when the entry's topic equals the published "
+      "one, to the entry's own sender, with an envelope tagged with the entry's own id, method <topic>.update and the published data; try_send, subscribe's push and unsubscribe's retain each run with the guard of self.entries alive; unsubscribe removes every entry with that id before returning; ids come from one "
+      "fetch_add(1) nobody else touches; only the Closed outcome records an entry - by id - and a non-empty list always reaches a retain by id under the lock; a control connection unsubscribes all owned ids on every way out.",
+      "DESIGN.md 5 C20", "FIFO of tokio's mpsc, fairness and cancel-safety of its Mutex are trusted; lines already queued in a connection's push channel before an unsubscribe are outside what is decided (stated in DESIGN.md).")
+
 NOT_APPLICABLE = {}
 ALL = ["C%02d" % i for i in range(1, 21)]
 
